@@ -2,7 +2,8 @@
    vm_compute for obligations on the tables regenerated from the live classes. *)
 From Coq Require Import String ZArith QArith Qround Qabs List Bool.
 From RV Require Import Base.PyNum Timing.Snapper Timing.Snap Timing.TimingMap Timing.Reseat Timing.Integrate
-  Formats.SMText Formats.SM Formats.SMSpec Generated.Tables Proofs.SMWitness Proofs.SMProofs Proofs.SMWriteProofs.
+  Formats.SMText Formats.SM Formats.SMSpec Formats.SMWriteDom Generated.Tables Proofs.SMWitness Proofs.SMProofs Proofs.SMWriteProofs
+  Proofs.SMWriteWholeChart Proofs.SMWriteWholeFile Proofs.SMWriteWholeEx.
 Import ListNotations.
 Open Scope Q_scope.
 
@@ -89,24 +90,48 @@ Theorem C03_sm_write_padding_current :
   match sm_denote w_pad_txt_current with Some d => write_spec (1 # 1000000) true w_pad_set d | None => false end = true.
 Proof. exact sm_write_padding_current. Qed.
 
-(* ---- sm_write_denotes, PARTIAL.  Full statement (not proved for all mapsets):
-       forall s toks txt, set_wf s -> sm_write live_conf current s = Some toks -> renders toks txt ->
-         exists d, sm_denote txt = Some d /\ write_spec tol (exact_regime s) s d = true.
-   Proved: every arithmetic step (LCM/cap, integral rows, truncation bound, place), the content of a written measure cell
-   by cell (C03_written_measure_cells), item round trip, #SELECTABLE item, padding width for every key count.
-   Missing: the step from the grid of cells to denote_rows over the joined text, and the tm_snaps/tm_beats halves of C10
-   (Proofs/TimingProofs2.v, not available yet) giving the per-object beats.  The full statement is evaluated in Coq on every generated mapset of every run
-   (Corr/RunC03.v: the implementation's text renders the model's tokens, and write_spec on sm_denote of that text). ---- *)
-Theorem C03_sm_write_denotes_partial : forall (dens : list Z) (num den : Z),
-  Forall (fun y => 0 < y)%Z dens -> In den dens -> (den_max_of live_conf dens < k_max_snap live_conf)%Z ->
-  (0 < den_max_of live_conf dens)%Z ->
-  inject_Z (num * den_max_of live_conf dens / den) / inject_Z (den_max_of live_conf dens) == inject_Z num / inject_Z den.
-Proof.
-  exact (fun dens num den Hp Hin Hlt Hpos =>
-           row_position_exact num den (den_max_of live_conf dens)
-             (proj1 (Forall_forall _ dens) Hp den Hin) Hpos
-             (den_max_below_cap_divides live_conf C03_cap_positive dens den Hp Hlt Hin)).
-Qed.
+(* ---- the cap is reached only when the true LCM exceeds it: when the TRUE lcm of a measure's denominators is <= 384 the
+   capped fold returns it and every denominator divides the row count (the <= version of C03_den_max_below_cap_divides) ---- *)
+Theorem C03_den_max_exact : forall (dens : list Z) (x : Z),
+  Forall (fun y => 0 < y)%Z dens -> In x dens -> (true_lcm dens <= k_max_snap live_conf)%Z ->
+  den_max_of live_conf dens = true_lcm dens /\ (x | den_max_of live_conf dens)%Z.
+Proof. exact (den_max_exact live_conf). Qed.
+
+(* ---- table obligation of the timing engine (C10) on the live snapper table ---- *)
+Theorem C03_table_ok : table_ok (1 # 96) (k_tbl live_conf) = true.
+Proof. exact live_table_ok. Qed.
+
+(* ---- sm_write_denotes, WHOLE FILE, for ALL mapsets of the decidable exact domain c03_domb (Formats/SMWriteDom.v:
+   16 tame text fields, >= 1 chart, #OFFSET = first tempo point, the first chart's tempo rows = the millisecond form of an
+   on-grid script with metronome 4 and two-decimal, pairwise distinct tempo beats, all charts with literally these rows;
+   per chart: supported type, tame type/desc/diff, non-empty radar, columns in range, hold lengths > 0, long notes of a
+   column disjoint, every event time (heads and tails too) at or after the first tempo point and on the snap grid of the
+   active tempo, no two events with the same column and beat, TRUE lcm of every measure <= 384):
+   SMMapSet.write succeeds, and EVERY text that renders the written tokens exactly (each float numeral parses to its value,
+   each tempo beat is a two-decimal numeral within 0.005) is a well-formed .sm text (sm_denote, the reference semantics,
+   independent of reamber's reader) whose header fields read back as the mapset's (16 text tags, OFFSET, SAMPLESTART,
+   SAMPLELENGTH, SELECTABLE) and whose charts are, in order, the mapset's charts: same type/description/difficulty/meter/
+   radar and, for every kind of object, the denoted notes are a permutation of the chart's list with equal columns and
+   times and lengths equal as rationals - nothing invented, nothing dropped, nothing moved. ---- *)
+Theorem C03_sm_write_denotes : forall s : smset, c03_domb s = true ->
+  exists toks, sm_write live_conf current s = Some toks /\
+    forall txt, match_toks 0 toks txt = true ->
+      exists d, sm_denote txt = Some d /\ header_roundtrip 0 s d = true /\ Forall2 chart_denotes (d_charts d) (s_maps s).
+Proof. exact sm_write_denotes. Qed.
+
+(* non-vacuity of the exact domain: two charts (dance-solo with 6 columns, kb7-single with 7) sharing two tempo rows handed
+   over out of order, the tempo change in the middle of a measure (beat 2.5), a hold ending on the tempo change, a roll across
+   a measure line, a mine, a lift, a fake, a keysound, a triplet (24-row measure), an empty measure, selectable = NO:
+   the mapset is in c03_domb, the literal text is an exact rendering of the writer's tokens, and it denotes the mapset
+   (the runner's oracle write_spec with tolerance 0 in the exact regime, 2 charts, 11 notes) *)
+Example C03_exact_domain_example :
+  c03_domb c03_ex_set = true
+  /\ match sm_write live_conf current c03_ex_set with Some toks => match_toks 0 toks c03_ex_txt | None => false end = true
+  /\ match sm_denote c03_ex_txt with
+     | Some d => write_spec 0 true c03_ex_set d && (length (d_charts d) =? 2)%nat
+                 && (length (flat_map d_notes (d_charts d)) =? 11)%nat
+     | None => false end = true.
+Proof. exact c03_example. Qed.
 
 (* non-vacuity: a 6-key mapset with two tempo points (the second mid-measure), every kind of object, a hold across
    the tempo change: the writer's text renders the model's tokens and denotes the mapset *)
